@@ -17,6 +17,14 @@ func New(r bufio.Reader) LexerReader {
 	content, _ := io.ReadAll(&r)
 	runes := []rune(string(content))
 
+	// rune 0 is the reader's end-of-input marker: a NUL in the source must not
+	// end tokenizing early, treat it as blank
+	for i, r := range runes {
+		if r == 0 {
+			runes[i] = ' '
+		}
+	}
+
 	return LexerReader{
 		runes:    runes,
 		pos:      0,
